@@ -1,11 +1,14 @@
 (* C18 — Configuration resolves by precedence and round-trips.
    Statements only; every proof is `exact <lemma from Proofs/ConfigProofs.v or Proofs/ConfigCodecProofs.v>`.
    Gen/GenConfig.v (ConfigSource values, the guard of value_with_source, the decision of
-   resolved_solver_command, codec literals), Gen/GenConfigTime.v (parse_time unit table) and
+   resolved_solver_command, codec literals incl. those of the repaired ParseTimeout.unparse and
+   ParseErrorCodes.unparse), Gen/GenConfigTime.v (parse_time unit table) and
    Gen/GenConfigMain.v (sources used by with_devdoc / with_natspec / load_config, loop binding
-   facts of run_tests / _main) are regenerated from /repo/src/halmos on every run. *)
+   facts of run_tests / _main) and Gen/GenConfigNatspec.v (literals of build.parse_natspec /
+   parse_devdoc) are regenerated from /repo/src/halmos on every run. *)
 From Coq Require Import ZArith List Bool QArith Lia.
-From HV Require Import Gen.GenConfig Gen.GenConfigTime Gen.GenConfigMain Spec.ConfigSpec Model.ConfigModel Proofs.ConfigProofs Proofs.ConfigCodecProofs.
+From HV Require Import Gen.GenConfig Gen.GenConfigTime Gen.GenConfigMain Gen.GenConfigNatspec Spec.ConfigSpec Model.ConfigFloatModel Model.ConfigModel
+  Proofs.ConfigProofs Proofs.ConfigFloatProofs Proofs.ConfigCodecProofs Proofs.ConfigTimeoutProofs Proofs.ConfigArrlenProofs Proofs.ConfigNatspecProofs.
 Import ListNotations.
 Open Scope Z_scope.
 
@@ -44,6 +47,30 @@ Theorem C18_scope :
 Proof. exact scope_correct. Qed.
 Print Assumptions C18_scope.
 
+(* Scoping inside one NatSpec text (build.parse_natspec): with any leading text without '@', any
+   list of tags ('@' + a non-empty run of non-white-space) each followed by its text (starting
+   with white space, without '@') and an optional last tag without text, the annotation is the
+   stripped concatenation of the texts of exactly the @custom:halmos tags, in order: the text of
+   every other tag is ignored, wherever it stands. *)
+Theorem C18_natspec_scope :
+  forall t0 items last,
+    Forall (fun c => (c =? 64) = false) t0 ->
+    Forall (fun tb => (exists d r, fst tb = 64 :: d :: r /\ Forall (fun c => is_ws c = false) (d :: r)) /\
+                      (Forall (fun c => (c =? 64) = false) (snd tb) /\ exists w r, snd tb = w :: r /\ is_ws w = true)) items ->
+    (forall t, last = Some t -> exists d r, t = 64 :: d :: r /\ Forall (fun c => is_ws c = false) (d :: r)) ->
+    parse_natspec (t0 ++ concat (map (fun tb => fst tb ++ snd tb) items) ++ match last with Some t => t | None => [] end)
+    = strip (concat (map snd (filter (fun tb => list_eqb (fst tb) natspec_halmos_tag) items))).
+Proof. exact natspec_scope. Qed.
+Print Assumptions C18_natspec_scope.
+
+(* the literals of parse_natspec are the ones the splitter of Model/ConfigModel.v reads *)
+Theorem C18_natspec_literals_pinned :
+  natspec_split_re = [40; 64; 92; 83; 43; 41] /\ natspec_match_re = [94; 64; 92; 83] /\
+  natspec_text_key = [116; 101; 120; 116] /\
+  natspec_halmos_tag = [64; 99; 117; 115; 116; 111; 109; 58; 104; 97; 108; 109; 111; 115].
+Proof. exact natspec_literals_pinned. Qed.
+Print Assumptions C18_natspec_literals_pinned.
+
 (* The documented chain for the stacks the runner builds:
    command line > function annotation > contract annotation > config file > default *)
 Theorem C18_chain :
@@ -53,28 +80,98 @@ Theorem C18_chain :
 Proof. exact chain_correct. Qed.
 Print Assumptions C18_chain.
 
-(* ParseTimeout: the round trip does NOT hold for every non-negative timeout: the faithful
-   model of ParseTimeout.unparse truncates (3/2 s -> "1s"). *)
-Theorem C18_timeout_roundtrip_refuted :
-  exists v : Q, (0 <= v)%Q /\ ~ faithful_rendering timeout_parse (timeout_unparse v) v.
-Proof. exact timeout_roundtrip_refuted. Qed.
-Print Assumptions C18_timeout_roundtrip_refuted.
+(* ParseTimeout over binary64 floats ([FFin neg k] = (-1)^neg * k / 2^1074, round to nearest even;
+   Model/ConfigFloatModel.v).  Whenever unparse returns a string, parsing that string gives back
+   a float that denotes the same number (or the same infinity, or nan again): whole seconds,
+   whole milliseconds (checked by the code with ms / 1000 == value, in floating point), and the
+   exact rendering by repr for everything else. *)
+Theorem C18_timeout_roundtrip :
+  forall v s, valid_f64 v -> timeout_unparse v = Some s ->
+    faithful_rendering (fun s => option_map f_denote (timeout_parse s)) s (f_denote v).
+Proof. exact timeout_roundtrip. Qed.
+Print Assumptions C18_timeout_roundtrip.
 
-(* ... also below one second (1/2 ms -> "0ms") *)
-Theorem C18_timeout_roundtrip_submilli_refuted :
-  exists v : Q, (0 <= v)%Q /\ (v < 1)%Q /\ ~ faithful_rendering timeout_parse (timeout_unparse v) v.
-Proof. exact timeout_roundtrip_refuted_submilli. Qed.
-Print Assumptions C18_timeout_roundtrip_submilli_refuted.
+(* ... and unparse does return for every float that is not negative (every timeout, nan included) *)
+Theorem C18_timeout_unparse_total_nonneg :
+  forall v, valid_f64 v -> f_neg v = false -> timeout_unparse v <> None.
+Proof. exact timeout_unparse_total_nonneg. Qed.
+Print Assumptions C18_timeout_unparse_total_nonneg.
 
-(* ... what does hold (and is all that holds) of ParseTimeout: whole milliseconds below one
-   second and whole seconds from one second up survive.  _partial: fractional values do not
-   (see the two _refuted theorems); Python floats are modelled as exact rationals. *)
-Theorem C18_timeout_roundtrip_partial :
-  forall n,
-    (0 <= n < 1000 -> faithful_rendering timeout_parse (timeout_unparse (n # 1000)) (n # 1000)) /\
-    (1 <= n -> faithful_rendering timeout_parse (timeout_unparse (inject_Z n)) (inject_Z n)).
-Proof. exact timeout_roundtrip_partial. Qed.
-Print Assumptions C18_timeout_roundtrip_partial.
+(* The hypothesis "not negative" is needed: parse accepts "-1e306s", and unparse raises on that
+   value (value * 1000 overflows to -inf; int(-inf) raises OverflowError). *)
+Theorem C18_timeout_unparse_negative_overflow_refuted :
+  exists s v, timeout_parse s = Some v /\ valid_f64 v /\ f_neg v = true /\ timeout_unparse v = None.
+Proof. exact timeout_unparse_negative_overflow_refuted. Qed.
+Print Assumptions C18_timeout_unparse_negative_overflow_refuted.
+
+(* every value parse returns is a float of the model (at most 53 significant bits, below 2^1024),
+   so the round trip holds starting from any string parse accepts, and for the non-negative
+   ones unparse does return *)
+Theorem C18_timeout_parse_valid : forall s v, timeout_parse s = Some v -> valid_f64 v.
+Proof. exact timeout_parse_valid. Qed.
+Print Assumptions C18_timeout_parse_valid.
+
+Theorem C18_timeout_parse_unparse_parse :
+  forall s v, timeout_parse s = Some v ->
+    (forall u, timeout_unparse v = Some u ->
+       faithful_rendering (fun s => option_map f_denote (timeout_parse s)) u (f_denote v)) /\
+    (f_neg v = false ->
+       exists u, timeout_unparse v = Some u /\
+                 faithful_rendering (fun s => option_map f_denote (timeout_parse s)) u (f_denote v)).
+Proof.
+  intros s v Hp. split; [intros u Hu; exact (timeout_parse_unparse_parse s v u Hp Hu)|].
+  intros Hn. exact (timeout_parse_unparse_total_nonneg s v Hp Hn).
+Qed.
+Print Assumptions C18_timeout_parse_unparse_parse.
+
+(* a NUMBER in halmos.toml (parse_time's int | float arm: str(arg) + "ms") is that many
+   milliseconds, rounded once; for an integer it is what the same digits mean as a string *)
+Theorem C18_timeout_toml_number :
+  (forall i, timeout_parse_int i = f_div (f_of_Z i) (f_of_Z 1000)) /\
+  (forall x, valid_f64 x -> timeout_parse_float x = f_div x (f_of_Z 1000)) /\
+  (forall i, timeout_parse (str_of_Z i) = timeout_parse_int i).
+Proof.
+  split; [exact timeout_parse_int_value|]. split; [exact timeout_parse_float_value|exact timeout_parse_int_as_string].
+Qed.
+Print Assumptions C18_timeout_toml_number.
+
+(* the float library model: float(repr(v)) = v for every float (finite or not), float(str(i)) is
+   the float nearest to i *)
+Theorem C18_float_repr_roundtrip : forall v, valid_f64 v -> py_float (float_repr v) = Some v.
+Proof. exact float_repr_roundtrip. Qed.
+Print Assumptions C18_float_repr_roundtrip.
+
+Theorem C18_float_of_int_literal : forall i, py_float (str_of_Z i) = Some (f_of_Z i).
+Proof. exact py_float_str_of_Z. Qed.
+Print Assumptions C18_float_of_int_literal.
+
+(* rounding: a ratio whose value is a representable magnitude is not changed; every result has
+   at most 53 significant bits *)
+Theorem C18_round_exact :
+  forall n d k, 0 < d -> n * F_UNIT = k * d -> representable k -> round_mag n d = k.
+Proof. exact round_mag_exact. Qed.
+Print Assumptions C18_round_exact.
+
+Theorem C18_round_representable : forall n d, 0 <= n -> 0 < d -> representable (round_mag n d).
+Proof. exact round_mag_representable. Qed.
+Print Assumptions C18_round_representable.
+
+(* ... and is a nearest one: no representable magnitude k is closer to n / d (distances in units
+   of 1 / (d * 2^1074)), a tie going to the even multiple of the quantum *)
+Theorem C18_round_nearest :
+  forall n d k, 0 <= n -> 0 < d -> representable k ->
+    Z.abs (round_mag n d * d - n * F_UNIT) <= Z.abs (k * d - n * F_UNIT).
+Proof. exact round_mag_nearest. Qed.
+Print Assumptions C18_round_nearest.
+
+Theorem C18_round_tie_even :
+  forall n d, 0 <= n -> 0 < d ->
+    let P := 2 ^ f_shift (n * F_UNIT / d) in
+    let q := n * F_UNIT / d / P in
+    2 * (n * F_UNIT - d * P * q) = d * P ->
+    round_mag n d = (if Z.even q then q else q + 1) * P.
+Proof. exact round_mag_tie_even. Qed.
+Print Assumptions C18_round_tie_even.
 
 (* int(str(n)) = n for every integer (the item codec underneath the CSV options) *)
 Theorem C18_int_literal : forall n, py_int10 (str_of_Z n) = Some n.
@@ -102,17 +199,10 @@ Theorem C18_csvint_accepts_only :
 Proof. exact csvint_accepts_only. Qed.
 Print Assumptions C18_csvint_accepts_only.
 
-(* ParseErrorCodes: every set of non-negative codes (the empty set = "*") survives.
-   _partial: negative codes, which parse accepts, do not (next theorem). *)
-Theorem C18_errcodes_roundtrip_partial :
-  forall l, Forall (fun v => 0 <= v) l -> errcodes_parse (errcodes_unparse l) = Some l.
+(* ParseErrorCodes: every set of codes of either sign (the empty set = "*") survives *)
+Theorem C18_errcodes_roundtrip : forall l, errcodes_parse (errcodes_unparse l) = Some l.
 Proof. exact errcodes_roundtrip. Qed.
-Print Assumptions C18_errcodes_roundtrip_partial.
-
-Theorem C18_errcodes_roundtrip_negative_refuted :
-  exists s l, errcodes_parse s = Some l /\ errcodes_parse (errcodes_unparse l) = None.
-Proof. exact errcodes_roundtrip_negative_refuted. Qed.
-Print Assumptions C18_errcodes_roundtrip_negative_refuted.
+Print Assumptions C18_errcodes_roundtrip.
 
 Theorem C18_errcodes_rejects :
   forall s,
@@ -136,9 +226,28 @@ Theorem C18_trace_rejects :
 Proof. exact trace_rejects_bad_item. Qed.
 Print Assumptions C18_trace_rejects.
 
-(* ParseArrayLengths: the two regexes and the rendering literals are the ones the hand-written
-   recogniser of Model/ConfigModel.v was written for (finite table; the recogniser itself is
-   tied to the code by the correspondence run, there is no Coq round-trip theorem for it) *)
+(* ParseArrayLengths: every dictionary with pairwise distinct, non-empty names free of white space
+   and of the characters = , { } and with non-empty lists of non-negative sizes (any number of
+   entries, any sizes) survives unparse/parse *)
+Theorem C18_arrlen_roundtrip :
+  forall d,
+    Forall (fun kv => (fst kv <> [] /\ Forall (fun c => is_special c = false /\ is_ws c = false) (fst kv)) /\
+                      (snd kv <> [] /\ Forall (fun v => 0 <= v) (snd kv))) d ->
+    NoDup (map fst d) ->
+    arrlen_parse (arrlen_unparse d) = AOk d.
+Proof. exact arrlen_roundtrip. Qed.
+Print Assumptions C18_arrlen_roundtrip.
+
+(* ... and every dictionary parse returns is of that kind: whatever string is accepted, the value
+   it yields survives unparse/parse *)
+Theorem C18_arrlen_parse_unparse_parse :
+  forall s d, arrlen_parse s = AOk d -> arrlen_parse (arrlen_unparse d) = AOk d.
+Proof. exact arrlen_parse_unparse_parse. Qed.
+Print Assumptions C18_arrlen_parse_unparse_parse.
+
+(* ... the two regexes and the rendering literals are the ones the hand-written recogniser of
+   Model/ConfigModel.v was written for (finite table; the recogniser itself is tied to the code
+   by the correspondence run) *)
 Theorem C18_arrlen_literals_pinned :
   arrlen_check_re = [94; 40; 91; 94; 61; 44; 92; 123; 92; 125; 93; 43; 61; 40; 92; 123; 91; 92; 100; 44; 93; 43; 92; 125; 124; 92; 100; 43; 41; 40; 44; 124; 36; 41; 41; 42; 36]
   /\ arrlen_find_re = [40; 91; 94; 61; 44; 92; 123; 92; 125; 93; 43; 41; 61; 40; 63; 58; 92; 123; 40; 91; 92; 100; 44; 93; 43; 41; 92; 125; 124; 40; 92; 100; 43; 41; 41]
@@ -151,9 +260,8 @@ Example C18_nonvacuous :
   let st := [(4, [(7, 40)]); (2, [(7, 21); (8, 5)]); (5, []); (2, [(7, 20)]); (1, [(7, 2); (8, 1); (9, 0)])] in
   vws_result 7 st = Some (40, 4) /\ vws_result 8 st = Some (5, 2) /\ vws_result 9 st = Some (0, 1) /\
   vws_result 10 st = None /\ wins st 8 1 5 2 /\
-  timeout_unparse (3 # 2) = [49; 115] /\
   csvint_parse [32; 49; 44; 44; 45; 50; 95; 48; 32] = Some [1; -20] /\ csvint_parse [49; 44; 120] = None /\
-  errcodes_unparse [1; 17] = [48; 120; 48; 49; 44; 48; 120; 49; 49] /\
+  errcodes_unparse [1; -17] = [48; 120; 48; 49; 44; 45; 48; 120; 49; 49] /\
   arrlen_parse [97; 61; 123; 49; 44; 50; 125; 44; 98; 61; 51] = AOk [([97], [1; 2]); ([98], [3])] /\
   arrlen_parse [97; 61; 123; 125] = AReject.
 Proof.
@@ -162,4 +270,20 @@ Proof.
   intros j l' Hj Hs.
   do 5 (destruct j as [|j]; [inversion Hj; subst; cbn; try lia; exfalso; apply Hs; reflexivity|]).
   destruct j; discriminate.
+Qed.
+
+(* 1.5 s is "1500ms" and back; "1.1" (ms) is 0.0011 s, rendered exactly as "0.0011s" and read back *)
+Example C18_timeout_nonvacuous :
+  let v := FFin false (3 * 2 ^ 1073) in
+  valid_f64 v /\ timeout_unparse v = Some [49; 53; 48; 48; 109; 115] /\
+  timeout_parse [49; 53; 48; 48; 109; 115] = Some v /\
+  exists w, timeout_parse [49; 46; 49] = Some w /\ valid_f64 w /\
+            timeout_unparse w = Some [48; 46; 48; 48; 49; 49; 115] /\
+            timeout_parse [48; 46; 48; 48; 49; 49; 115] = Some w.
+Proof.
+  cbv zeta. split; [split; [split; [vm_compute; discriminate|vm_compute; reflexivity]|vm_compute; reflexivity]|].
+  split; [vm_compute; reflexivity|]. split; [vm_compute; reflexivity|].
+  eexists. split; [vm_compute; reflexivity|].
+  split; [split; [split; [vm_compute; discriminate|vm_compute; reflexivity]|vm_compute; reflexivity]|].
+  split; vm_compute; reflexivity.
 Qed.
